@@ -1,7 +1,7 @@
 ------------------------------ MODULE MC_C19B ------------------------------
 EXTENDS C19_Builder
 AllOps      == OpNames
-QuickOps    == {"I", "x", "y", "z", "sx", "+", "-", "n", "sn"}
+QuickOps    == {"I", "x", "y", "sx", "+", "-", "sn"}
 PairOps     == {"x", "y", "+", "-", "sz"}
 TripleOps   == {"y", "sx", "+", "-", "n", "zx"}
 CoefOne     == {<<1, 2>>}
